@@ -189,6 +189,16 @@ theorem kind_mapper_check_then_act :
         && m.calls.all (fun c => c == "Put" || c == "mapKinds")) = true
     ∧ kindMapperMethods.any (fun m => m.name == "AssertKinds") = true := by decide
 
+/-- **kinds_interned_atomically** (source fact shared with C12, `string_kind_interns_atomically`): the mapper's tables
+are keyed by `graph.Kind` IDENTITY, and `assert_kinds_idempotent` speaks about kinds as keys. "One id per kind NAME under
+concurrency" therefore also needs interning to be a function of the name even when two goroutines first use a name at
+the same moment: `graph.StringKind` — the only function that mints a `stringKind` handle, also behind `StringsToKinds` —
+goes through ONE atomic `sync.Map.LoadOrStore`. A `Load` followed by a `Store` hands the loser a second handle, which
+the mapper registers under a second id. -/
+theorem kinds_interned_atomically :
+    Dawgs.Generated.C12Api.stringKindCacheCalls = ["LoadOrStore"] ∧ Dawgs.Generated.C12Api.stringKindMinters = ["StringKind"]
+    ∧ Dawgs.Generated.C12Api.stringsToKindsUsesFactory = true := by decide
+
 /-- **assert_kinds_order**: either `AssertKinds` fills its result position-wise (`ids[idx] = s.Put(kinds[idx])`, the LIVE
 model `KM.assertKinds`, for which `assert_kinds_repeatable` holds — the state after hooks/C05-fix2.patch), or it has
 exactly the old known shape (`mapKinds` then `Put` for the missing kinds: found ids first, new ids after —
